@@ -97,9 +97,21 @@ var (
 	I64    = I(64)
 )
 
+// Noise selects non-canonical but equivalent spellings (set for the duration of one Printer.Module call).
+type Noise struct {
+	AlwaysQuote     bool // quote names that do not need quotes
+	EscapePrintable bool // spell some printable bytes as \XX inside quoted names and strings
+	Explicit        bool // explicit %N = / N: numbering
+	Comments        bool // comment lines and trailing comments
+	FullCallType    bool // full function type in calls
+	Indent          string
+}
+
+var noise Noise
+
 // QuoteName spells a name for use after a sigil: bare when LLVM allows, else quoted with \XX escapes.
 func QuoteName(name string) string {
-	bare := name != ""
+	bare := name != "" && !noise.AlwaysQuote
 	for i := 0; i < len(name); i++ {
 		c := name[i]
 		head := c >= 'a' && c <= 'z' || c >= 'A' && c <= 'Z' || c == '-' || c == '$' || c == '.' || c == '_'
@@ -114,7 +126,7 @@ func QuoteName(name string) string {
 	b.WriteByte('"')
 	for i := 0; i < len(name); i++ {
 		c := name[i]
-		if c >= ' ' && c <= '~' && c != '"' && c != '\\' {
+		if c >= ' ' && c <= '~' && c != '"' && c != '\\' && !(noise.EscapePrintable && (c == 'a' || c == '1' || c == '.')) {
 			b.WriteByte(c)
 		} else {
 			fmt.Fprintf(&b, "\\%02X", c)
